@@ -265,7 +265,7 @@ pub fn run(ctx: &Ctx) -> PropResult {
         })
         .count();
     let shards = 64usize;
-    let cases = ctx.scaled(if ctx.thorough { 20_000 } else { 1_000 });
+    let cases = ctx.scaled(if ctx.thorough { 60_000 } else { 5_000 });
     let accs = par::run_shards(shards, ctx.threads, |i| shard(ctx, &all, i, cases), |h| ctx.on_hang(h));
     let mut distinct = HashSet::new();
     let mut by_delivery: BTreeMap<&'static str, u64> = BTreeMap::new();
